@@ -516,8 +516,17 @@ func (w *World) scannerTables(g *Grammar) error {
 			continue // skipped before the token proper; G-TOKENS checks that separately
 		}
 		for _, o := range w.scanFrom(g, c) {
-			if o.Cut || o.Text == "" || strings.Contains(o.Text, "?") {
+			if o.Cut || o.Text == "" || strings.Contains(o.Text, "?") || len(o.Text) > 2 {
 				continue
+			}
+			punct := true
+			for _, ch := range o.Text {
+				if ch > 127 || unicode.IsLetter(ch) || unicode.IsDigit(ch) || unicode.IsSpace(ch) || ch == '"' || ch == '\'' {
+					punct = false
+				}
+			}
+			if !punct {
+				continue // names, numbers and strings are not table tokens
 			}
 			n++
 			if o.Panicked {
